@@ -322,7 +322,22 @@ func bigImportDeviationsCfg(bs *bigStream, cfg Cfg, faults, cuts bool) (evals in
 				img.Apply(wr)
 			}
 			// before the last physical write of Commit nothing may be visible
-			check(img, c == len(st0.Log), fmt.Sprintf("import of %d nodes (fast index %v) interrupted after %d of %d physical writes", len(bs.nodes), cfg.Fast, c, len(st0.Log)))
+			what := fmt.Sprintf("import of %d nodes (fast index %v) interrupted after %d of %d physical writes", len(bs.nodes), cfg.Fast, c, len(st0.Log))
+			check(img, c == len(st0.Log), what)
+			// repeating the interrupted import (a new process, a tree that was never loaded) reaches the crash-free
+			// result, unless the image already is the complete imported version
+			if postState(img) != "" {
+				evals++
+				re := img.Clone()
+				var ierr error
+				if pv := safely("repeated import", func() *Violation { ierr = runImport(re, cfg, bs.version, bs.nodes); return nil }); pv != nil {
+					fails = append(fails, fmt.Sprintf("%s: repeating the import panics: %s", what, pv.Detail))
+				} else if ierr != nil {
+					fails = append(fails, fmt.Sprintf("%s: repeating the import fails: %v", what, ierr))
+				} else if post := postState(re); post != "" {
+					fails = append(fails, fmt.Sprintf("%s: the repeated import reported success but %s", what, post))
+				}
+			}
 		}
 	}
 	return evals, fails
